@@ -70,6 +70,7 @@ def case_st(draw):
             "second": draw(st.sampled_from([None, None, {"prefix": "/v2/", "strip": True}, {"prefix": "/api/v1/", "strip": True},
                                             {"prefix": "/mirror/", "strip": False}, {"prefix": "/a/", "strip": True}])),
             "second_first": draw(st.booleans()),
+            "up_reply": draw(st.sampled_from(["20", "20", "redirect-lookalike-host", "redirect-lookalike-port", "redirect-self", "redirect-other"])),
             "static_after": draw(st.booleans()), "url": url, "path": path or "/", "query": query, "labels": labels}
 
 
@@ -114,7 +115,13 @@ def run_case(case: dict):
     async def scenario(loop):
         net = memnet.MemNet()
         net.install(loop)
-        up = memnet.ScriptedPeer(certs.get("ec-a"), [("wait_request", 1.0), ("send", b"20 text/gemini\r\nUPSTREAM"), ("close",)])
+        base = case["upstream"].rstrip("/")
+        reply = {"20": b"20 text/gemini\r\nUPSTREAM",
+                 "redirect-lookalike-host": f"31 {base}.evil.example/stolen\r\n".encode(),
+                 "redirect-lookalike-port": f"31 {base}0/stolen\r\n".encode(),
+                 "redirect-self": f"30 {base}/elsewhere\r\n".encode(),
+                 "redirect-other": b"31 gemini://third.example/x\r\n"}[case.get("up_reply", "20")]
+        up = memnet.ScriptedPeer(certs.get("ec-a"), [("wait_request", 1.0), ("send", reply), ("close",)])
         net.add(case["up_host"], case["up_port"], up)
         tr = FakeTransport(loop)
         proto = GeminiServerProtocol(router.route, None)
